@@ -122,6 +122,19 @@ def update_param_state_dict_object(
                 enable_missing_key_check,
             )
         elif hasattr(v, "load_state_dict") and callable(v.load_state_dict):
+            # OptimizerModule.load_state_dict silently skips attributes that are absent from the loaded state.
+            if isinstance(v, OptimizerModule) and (
+                missing_keys := flatten(v.state_dict()).keys()
+                - flatten(param_state_dict_to_load[k]).keys()
+            ):
+                if enable_missing_key_check:
+                    raise KeyError(
+                        f"Keys {sorted(missing_keys)} of {k} not found in state dict to load."
+                    )
+                else:
+                    logger.warning(
+                        f"Keys {sorted(missing_keys)} of {k} not found in state dict to load."
+                    )
             v.load_state_dict(param_state_dict_to_load[k])
         elif isinstance(v, torch.Tensor):
             v.detach().copy_(param_state_dict_to_load[k])
